@@ -154,6 +154,10 @@ func (o *Obs) Outcome(h uint64, class string) {
 
 func (o *Obs) Count(k string, n int64) { o.extra[k] += n }
 
+// Evals counts individual evaluations when one explorer execution runs a batch
+// of them (e.g. all 255 substitutions of one byte).
+func (o *Obs) Evals(n int64) { o.extra["evaluations"] += n }
+
 // Sample keeps a few written-out cases for the evidence file.
 func (o *Obs) Sample(f func() interface{}) {
 	if len(o.samples) < 3 {
@@ -677,6 +681,9 @@ func writeEvidence(ck *Check, tierS string, results []*PhaseResult, violations i
 	rules := []string{}
 	allPhases := ck.Phases(tierOf(tierS))
 	for i, r := range results {
+		if n := r.Extra["evaluations"]; n > 0 {
+			execs += n - r.Executions // batches: count the individual evaluations
+		}
 		execs += r.Executions
 		states += r.States
 		trans += r.Transitions
@@ -721,6 +728,7 @@ func writeEvidence(ck *Check, tierS string, results []*PhaseResult, violations i
 		"states":                        states,
 		"transitions":                   trans,
 		"traces_validated_against_impl": execs,
+		"explorer_executions":           explorerExecs(results),
 		"exhaustive":                    len(caps) == 0 && len(harnessErrs) == 0,
 		"phases":                        phases,
 		"caps_hit":                      caps,
@@ -743,6 +751,14 @@ func writeEvidence(ck *Check, tierS string, results []*PhaseResult, violations i
 	b, _ := json.MarshalIndent(ev, "", " ")
 	os.MkdirAll(filepath.Join(OutDir, "evidence"), 0o755)
 	os.WriteFile(filepath.Join(OutDir, "evidence", ck.ID+".json"), append(b, '\n'), 0o644)
+}
+
+func explorerExecs(rs []*PhaseResult) int64 {
+	var n int64
+	for _, r := range rs {
+		n += r.Executions
+	}
+	return n
 }
 
 func tierOf(s string) universe.Tier {
